@@ -163,6 +163,24 @@ class SymCtx:
         self.p.assume(z3.ULT(v, z3.BitVecVal(1 << bits, width)))
         return v
 
+    def abytes(self, name):
+        """byte string of SYMBOLIC length (array-backed); replay models are shrunk to short lengths"""
+        arr = z3.Array(name, z3.IntSort(), z3.IntSort())
+        n = z3.Int(name + '#len')
+        self.p.assume(n >= 0)
+        i = z3.Int('__bi')
+        self.p.assume(z3.ForAll([i], z3.And(z3.Select(arr, i) >= 0, z3.Select(arr, i) <= 255)))
+        self.inputs[name] = ('abytes', (arr, n))
+        return V.ABytes(arr, 0, n)
+
+    def afile(self, content, pos):
+        from .stdlib import AFile
+        return AFile(content.arr, content.length, pos)
+
+    def aout(self, pos):
+        from .stdlib import AOutFile
+        return AOutFile(pos)
+
     def byte(self, name):
         return self.int(name, 0, 255)
 
@@ -275,6 +293,21 @@ class ConcCtx:
     def bv(self, name, bits, width=64):
         return int(self._get(name, 0))
 
+    def abytes(self, name):
+        return bytes(self._get(name, []))
+
+    def afile(self, content, pos):
+        import io
+        f = io.BytesIO(bytes(content))
+        f.seek(pos)
+        return f
+
+    def aout(self, pos):
+        import io
+        f = io.BytesIO()
+        f.seek(pos)
+        return f
+
     def byte(self, name):
         return self.int(name, 0, 255)
 
@@ -359,6 +392,21 @@ class FixedCtx(SymCtx):
 
     def bv(self, name, bits, width=64):
         return int(self.values.get(name, 0))
+
+    def abytes(self, name):
+        return bytes(self.values.get(name, []))
+
+    def afile(self, content, pos):
+        from .stdlib import FileModel
+        f = FileModel(bytes(content))
+        f.pos = pos
+        return f
+
+    def aout(self, pos):
+        from .stdlib import FileModel
+        f = FileModel(b'')
+        f.pos = pos
+        return f
 
     def bytes(self, name, n, mutable=False):
         v = list(self.values.get(name, [0] * n)) + [0] * n
